@@ -5,10 +5,16 @@
 -/
 import CimbaModel.Sim.S3Built
 import CimbaModel.Sim.S4Safe
+import CimbaModel.Sim.S4Defs
 
 namespace CimbaModel.Sim.S4
 open CimbaModel CimbaModel.Sim CimbaModel.Sim.S3 CimbaModel.Event CimbaModel.Generated CimbaModel.KPQ
 open CimbaModel.HashHeap (HTag Item Order HH WF abs liveTags)
+
+/-- a valid call: signal values (`S3.CmdOk`), durations, variable discipline, and `acquire` names a resource that has
+    already been declared -/
+def CmdValid (w : World) (c : Cmd) : Prop :=
+  CmdOk c ∧ DurOk c ∧ VarsOk c ∧ ∀ r, c = .acquire r → r < w.res.size
 
 /-- the worlds the loader can build.  `sub g cg`: `g` is a plain guard (of a resource, pool, buffer or queue), `cg` the
     guard of a condition; `start p`: an existing process without a pending start event. -/
@@ -21,7 +27,7 @@ inductive Loaded : World → Prop
   | pq {w : World} (cap : Nat) : Loaded w → Loaded (addPQ w cap)
   | cond {w : World} : Loaded w → Loaded (addCond w)
   | proc {w : World} (pr : Int) (cmds : Array (Cmd × String)) :
-      Loaded w → (∀ (i : Nat) (c : Cmd) (t : String), cmds[i]? = some (c, t) → CmdOk c) → Loaded (addProc w pr cmds)
+      Loaded w → (∀ (i : Nat) (c : Cmd) (t : String), cmds[i]? = some (c, t) → CmdValid w c) → Loaded (addProc w pr cmds)
   | sub {w : World} (g cg : Nat) : Loaded w → (∃ gd : Guard, w.guards[g]? = some gd ∧ gd.isCond = false) →
       (∃ gd : Guard, w.guards[cg]? = some gd ∧ gd.isCond = true) → Loaded (subscribe w g cg)
   | start {w : World} (p : Pid) : Loaded w → p < w.procs.size → (∀ e ∈ w.ev.pending, e.item.b ≠ p + 1) →
@@ -36,7 +42,7 @@ theorem Loaded.built {w : World} (h : Loaded w) : Built w := by
   | oq cap _ ih => exact .oq cap ih
   | pq cap _ ih => exact .pq cap ih
   | cond _ ih => exact .cond ih
-  | proc pr cmds _ hok ih => exact .proc pr cmds ih hok
+  | proc pr cmds _ hok ih => exact .proc pr cmds ih (fun i c t h => (hok i c t h).1)
   | sub g cg _ _ _ ih => exact .sub g cg ih
   | start p _ _ _ ih => exact .start p ih
 
@@ -62,6 +68,7 @@ structure LInv (w : World) : Prop where
   cg : ∀ (c g : Nat), w.conds[c]? = some g → CondG w g
   obs : ∀ (g : Nat) (gd : Guard), w.guards[g]? = some gd →
     (gd.isCond = true → gd.observers = []) ∧ ∀ o ∈ gd.observers, CondG w o
+  ok : ∀ (p : Pid) (i : Nat) (c : Cmd) (t : String), (w.proc p).script[i]? = some (c, t) → CmdValid w c
 
 theorem push_plain {w : World} {b b' : Bool} {g : Nat} (h : Plain w g) :
     Plain { w with guards := w.guards.push { q := mkHH 3, isCond := b' } } g ∧ (b = b) := by
@@ -99,15 +106,19 @@ theorem LInv.grow {w w' : World} (h : LInv w) (hf : w'.fault = w.fault) (hp : w'
        (∀ (r : Nat) (x : Buf), w'.bufs[r]? = some x → Plain w' x.front ∧ Plain w' x.rear) ∧
        (∀ (r : Nat) (x : OQ), w'.oqs[r]? = some x → Plain w' x.front ∧ Plain w' x.rear) ∧
        (∀ (r : Nat) (x : PQ), w'.pqs[r]? = some x → Plain w' x.front ∧ Plain w' x.rear))
-    (hcg : ∀ (c g : Nat), w'.conds[c]? = some g → CondG w' g) : LInv w' := by
+    (hcg : ∀ (c g : Nat), w'.conds[c]? = some g → CondG w' g) (hres : w.res.size ≤ w'.res.size) : LInv w' := by
   have hproc : ∀ p, w'.proc p = w.proc p := fun p => by unfold World.proc; rw [hp]
   refine ⟨hf.trans h.nf, fun p => by rw [hproc]; exact h.pr p, by rw [hgv]; exact h.gv, by rw [hev, hp]; exact h.pend,
-    by rw [hev]; exact h.uq, hhq, hrq, hkq, hog, hcg, ?_⟩
-  intro g gd hg
-  rcases hnew g gd hg with hold | ⟨hno, _⟩
-  · obtain ⟨h1, h2⟩ := h.obs g gd hold
-    exact ⟨h1, fun o ho => guards_grow hsub (h2 o ho)⟩
-  · exact ⟨fun _ => hno, fun o ho => by rw [hno] at ho; cases ho⟩
+    by rw [hev]; exact h.uq, hhq, hrq, hkq, hog, hcg, ?_, ?_⟩
+  · intro g gd hg
+    rcases hnew g gd hg with hold | ⟨hno, _⟩
+    · obtain ⟨h1, h2⟩ := h.obs g gd hold
+      exact ⟨h1, fun o ho => guards_grow hsub (h2 o ho)⟩
+    · exact ⟨fun _ => hno, fun o ho => by rw [hno] at ho; cases ho⟩
+  · intro p i c t hc
+    rw [hproc] at hc
+    obtain ⟨a, b, c', d⟩ := h.ok p i c t hc
+    exact ⟨a, b, c', fun r hr => Nat.lt_of_lt_of_le (d r hr) hres⟩
 
 
 theorem Plain.grow {w w' : World} {g : Nat} (hsub : ∀ (i : Nat) (gd : Guard), w.guards[i]? = some gd → w'.guards[i]? = some gd)
@@ -131,7 +142,7 @@ theorem push2_get {α : Type} (a : Array α) (x y : α) (i : Nat) (z : α) (h : 
 theorem LInv.addRes {w : World} (h : LInv w) : LInv (addRes w) := by
   have hsub : ∀ (i : Nat) (gd : Guard), w.guards[i]? = some gd → (S3.addRes w).guards[i]? = some gd :=
     fun i gd hg => push_sub _ _ _ _ hg
-  refine h.grow rfl rfl rfl rfl hsub ?_ h.hq ?_ h.kq ⟨?_, ?_, ?_, ?_, ?_⟩ (fun c g hc => (h.cg c g hc).grow hsub)
+  refine h.grow rfl rfl rfl rfl hsub ?_ h.hq ?_ h.kq ⟨?_, ?_, ?_, ?_, ?_⟩ (fun c g hc => (h.cg c g hc).grow hsub) (by simp [S3.addRes, newGuardW])
   · intro i gd hg
     rcases push_get _ _ _ _ hg with h1 | ⟨_, rfl⟩
     · exact Or.inl h1
@@ -152,7 +163,7 @@ theorem LInv.addRes {w : World} (h : LInv w) : LInv (addRes w) := by
 theorem LInv.addPool {w : World} (h : LInv w) (cap : Nat) : LInv (addPool w cap) := by
   have hsub : ∀ (i : Nat) (gd : Guard), w.guards[i]? = some gd → (S3.addPool w cap).guards[i]? = some gd :=
     fun i gd hg => push_sub _ _ _ _ hg
-  refine h.grow rfl rfl rfl rfl hsub ?_ ?_ h.rq h.kq ⟨?_, ?_, ?_, ?_, ?_⟩ (fun c g hc => (h.cg c g hc).grow hsub)
+  refine h.grow rfl rfl rfl rfl hsub ?_ ?_ h.rq h.kq ⟨?_, ?_, ?_, ?_, ?_⟩ (fun c g hc => (h.cg c g hc).grow hsub) (Nat.le_refl _)
   · intro i gd hg
     rcases push_get _ _ _ _ hg with h1 | ⟨_, rfl⟩
     · exact Or.inl h1
@@ -181,7 +192,7 @@ theorem two_new (w : World) : Plain { w with guards := (w.guards.push { q := mkH
 theorem LInv.addBuf {w : World} (h : LInv w) (cap : Nat) : LInv (addBuf w cap) := by
   have hsub : ∀ (i : Nat) (gd : Guard), w.guards[i]? = some gd → (S3.addBuf w cap).guards[i]? = some gd :=
     fun i gd hg => push2_sub _ _ _ _ _ hg
-  refine h.grow rfl rfl rfl rfl hsub ?_ h.hq h.rq h.kq ⟨?_, ?_, ?_, ?_, ?_⟩ (fun c g hc => (h.cg c g hc).grow hsub)
+  refine h.grow rfl rfl rfl rfl hsub ?_ h.hq h.rq h.kq ⟨?_, ?_, ?_, ?_, ?_⟩ (fun c g hc => (h.cg c g hc).grow hsub) (Nat.le_refl _)
   · intro i gd hg
     rcases push2_get _ _ _ _ _ hg with h1 | rfl | rfl
     · exact Or.inl h1
@@ -199,7 +210,7 @@ theorem LInv.addBuf {w : World} (h : LInv w) (cap : Nat) : LInv (addBuf w cap) :
 theorem LInv.addOQ {w : World} (h : LInv w) (cap : Nat) : LInv (addOQ w cap) := by
   have hsub : ∀ (i : Nat) (gd : Guard), w.guards[i]? = some gd → (S3.addOQ w cap).guards[i]? = some gd :=
     fun i gd hg => push2_sub _ _ _ _ _ hg
-  refine h.grow rfl rfl rfl rfl hsub ?_ h.hq h.rq h.kq ⟨?_, ?_, ?_, ?_, ?_⟩ (fun c g hc => (h.cg c g hc).grow hsub)
+  refine h.grow rfl rfl rfl rfl hsub ?_ h.hq h.rq h.kq ⟨?_, ?_, ?_, ?_, ?_⟩ (fun c g hc => (h.cg c g hc).grow hsub) (Nat.le_refl _)
   · intro i gd hg
     rcases push2_get _ _ _ _ _ hg with h1 | rfl | rfl
     · exact Or.inl h1
@@ -217,7 +228,7 @@ theorem LInv.addOQ {w : World} (h : LInv w) (cap : Nat) : LInv (addOQ w cap) := 
 theorem LInv.addPQ {w : World} (h : LInv w) (cap : Nat) : LInv (addPQ w cap) := by
   have hsub : ∀ (i : Nat) (gd : Guard), w.guards[i]? = some gd → (S3.addPQ w cap).guards[i]? = some gd :=
     fun i gd hg => push2_sub _ _ _ _ _ hg
-  refine h.grow rfl rfl rfl rfl hsub ?_ h.hq h.rq ?_ ⟨?_, ?_, ?_, ?_, ?_⟩ (fun c g hc => (h.cg c g hc).grow hsub)
+  refine h.grow rfl rfl rfl rfl hsub ?_ h.hq h.rq ?_ ⟨?_, ?_, ?_, ?_, ?_⟩ (fun c g hc => (h.cg c g hc).grow hsub) (Nat.le_refl _)
   · intro i gd hg
     rcases push2_get _ _ _ _ _ hg with h1 | rfl | rfl
     · exact Or.inl h1
@@ -239,7 +250,7 @@ theorem LInv.addPQ {w : World} (h : LInv w) (cap : Nat) : LInv (addPQ w cap) := 
 theorem LInv.addCond {w : World} (h : LInv w) : LInv (addCond w) := by
   have hsub : ∀ (i : Nat) (gd : Guard), w.guards[i]? = some gd → (S3.addCond w).guards[i]? = some gd :=
     fun i gd hg => push_sub _ _ _ _ hg
-  refine h.grow rfl rfl rfl rfl hsub ?_ h.hq h.rq h.kq ⟨?_, ?_, ?_, ?_, ?_⟩ ?_
+  refine h.grow rfl rfl rfl rfl hsub ?_ h.hq h.rq h.kq ⟨?_, ?_, ?_, ?_, ?_⟩ ?_ (Nat.le_refl _)
   · intro i gd hg
     rcases push_get _ _ _ _ hg with h1 | ⟨_, rfl⟩
     · exact Or.inl h1
@@ -254,7 +265,8 @@ theorem LInv.addCond {w : World} (h : LInv w) : LInv (addCond w) := by
     · exact (h.cg c g h1).grow hsub
     · exact ⟨{ q := mkHH 3, isCond := true }, push_new _ _, rfl⟩
 
-theorem LInv.addProc {w : World} (h : LInv w) (pr : Int) (cmds : Array (Cmd × String)) : LInv (addProc w pr cmds) := by
+theorem LInv.addProc {w : World} (h : LInv w) (pr : Int) (cmds : Array (Cmd × String))
+    (hok : ∀ (i : Nat) (c : Cmd) (t : String), cmds[i]? = some (c, t) → CmdValid w c) : LInv (addProc w pr cmds) := by
   have hproc : ∀ p, (S3.addProc w pr cmds).proc p = w.proc p ∨
       (S3.addProc w pr cmds).proc p = ({ prio := pr, script := cmds } : Proc) := by
     intro p
@@ -263,7 +275,12 @@ theorem LInv.addProc {w : World} (h : LInv w) (pr : Int) (cmds : Array (Cmd × S
     split
     · right; rfl
     · left; rfl
-  refine ⟨h.nf, fun p => ?_, h.gv, fun e he => ⟨(h.pend e he).1, ?_⟩, h.uq, h.hq, h.rq, h.kq, h.og, h.cg, h.obs⟩
+  refine ⟨h.nf, fun p => ?_, h.gv, fun e he => ⟨(h.pend e he).1, ?_⟩, h.uq, h.hq, h.rq, h.kq, h.og, h.cg, h.obs, ?_⟩
+  rotate_left 2
+  · intro p i c t hs
+    rcases hproc p with e | e <;> rw [e] at hs
+    · exact h.ok p i c t hs
+    · exact hok i c t hs
   · rcases hproc p with e | e <;> rw [e]
     · exact h.pr p
     · refine ⟨rfl, rfl, fun i => ?_⟩
@@ -297,7 +314,7 @@ theorem LInv.subscribe {w : World} (h : LInv w) (g cg : Nat) (hg : Plain w g) (h
     split
     · exact ⟨{ gd with observers := cg :: gd.observers }, by rw [hi]; rfl, hb⟩
     · exact ⟨gd, hi, hb⟩
-  refine ⟨h.nf, h.pr, h.gv, h.pend, h.uq, h.hq, h.rq, h.kq, ⟨?_, ?_, ?_, ?_, ?_⟩, fun c g' hc' => hflag true g' (h.cg c g' hc'), ?_⟩
+  refine ⟨h.nf, h.pr, h.gv, h.pend, h.uq, h.hq, h.rq, h.kq, ⟨?_, ?_, ?_, ?_, ?_⟩, fun c g' hc' => hflag true g' (h.cg c g' hc'), ?_, h.ok⟩
   · exact fun r x hx => hflag false _ (h.og.1 r x hx)
   · exact fun r x hx => hflag false _ (h.og.2.1 r x hx)
   · exact fun r x hx => ⟨hflag false _ (h.og.2.2.1 r x hx).1, hflag false _ (h.og.2.2.1 r x hx).2⟩
@@ -321,7 +338,7 @@ theorem LInv.autostart {w : World} (h : LInv w) (p : Pid) (hp : p < w.procs.size
     LInv (autostart w p) := by
   unfold S3.autostart
   rw [S3.sched_now]
-  refine ⟨h.nf, h.pr, h.gv, ?_, ?_, h.hq, h.rq, h.kq, h.og, h.cg, h.obs⟩
+  refine ⟨h.nf, h.pr, h.gv, ?_, ?_, h.hq, h.rq, h.kq, h.og, h.cg, h.obs, h.ok⟩
   · intro e he
     simp only [pushEv_pending, List.mem_cons] at he
     rcases he with rfl | he
@@ -339,7 +356,7 @@ theorem LInv.empty : LInv {} := by
   refine ⟨rfl, fun p => ⟨rfl, rfl, fun i => ?_⟩, fun i => ?_, fun e he => (by cases he), fun e he => (by cases he),
     fun pl x hx => (by cases hx), fun r x hx => (by cases hx), fun k x hx => (by cases hx),
     ⟨fun r x hx => (by cases hx), fun r x hx => (by cases hx), fun r x hx => (by cases hx), fun r x hx => (by cases hx),
-     fun r x hx => (by cases hx)⟩, fun c g hc => (by cases hc), fun g gd hg => (by cases hg)⟩
+     fun r x hx => (by cases hx)⟩, fun c g hc => (by cases hc), fun g gd hg => (by cases hg), fun p i c t hs => (by cases hs)⟩
   · show (Array.replicate 16 0).getD i 0 = 0
     simp [Array.getD_eq_getD_getElem?, Array.getElem?_replicate]
     split <;> rfl
@@ -356,7 +373,7 @@ theorem Loaded.linv {w : World} (h : Loaded w) : LInv w := by
   | oq cap _ ih => exact ih.addOQ cap
   | pq cap _ ih => exact ih.addPQ cap
   | cond _ ih => exact ih.addCond
-  | proc pr cmds _ _ ih => exact ih.addProc pr cmds
+  | proc pr cmds _ hok ih => exact ih.addProc pr cmds hok
   | sub g cg _ hg hc ih => exact ih.subscribe g cg hg hc
   | start p _ hp hf ih => exact ih.autostart p hp hf
 
